@@ -432,6 +432,7 @@ void LabeledUndirectedGraph<EdgeLabel>::removeVertexFromEdgeList(
             if (i == vertex || *j == vertex) {
                 if (i <= *j) {
                     --Directed::edgeNumber;
+                    Directed::edgeLabels.erase({i, *j});
                 }
                 Directed::adjacencyList[i].erase(j++);
             } else {
